@@ -195,12 +195,20 @@ class Checker:
                 rep.inconclusive("placement site not found in the document")
                 continue
             kind = site["site"]
-            if kind in ("request_body", "response_body"):
+            if kind in ("request_body", "response_body", "error_body"):
                 try:
                     if kind == "request_body":
                         pub = op["requestBody"]["content"]["application/json"]["schema"]
                     else:
-                        pub = op["responses"][site["status"]]["content"]["application/json"]["schema"]
+                        resp = op["responses"][site["status"]]
+                        if "$ref" in resp:
+                            # a shared response object: "#/components/responses/<name>"
+                            parts = resp["$ref"].lstrip("#/").split("/")
+                            node = doc
+                            for part in parts:
+                                node = node[part.replace("~1", "/").replace("~0", "~")]
+                            resp = node
+                        pub = resp["content"]["application/json"]["schema"]
                 except KeyError:
                     self.violate("C08:schema-not-published", dict(ident, site=site, entry=entry["name"]))
                     continue
